@@ -24,13 +24,19 @@ Definition wf_n (n : net) : bool :=
   | Net6 a l _ => wf_netb 128 a l
   end.
 
-(* IPv6 domain of the proved partial coverage theorem: every completely fixed 16-bit group of the
-   (nibble-aligned) subnets is non-zero; no scope id *)
+(* IPv6: the domain on which coverage is expected to hold (every completely fixed 16-bit group of the
+   nibble-aligned subnets is non-zero); its complement is the input class of known finding D20.
+   Coverage is PROVED only for prefix lengths 0 and 128 (proved6, theorem C18_v6_cover_partial). *)
 Definition fixed_groups_nonzero (a len : N) : bool :=
   forallb (fun g => negb (g =? 0)) (firstn (N.to_nat ((len + (4 - len mod 4) mod 4) / 16)) (groups6 a)).
 Definition stable6 (n : net) : bool :=
   match n with
   | Net6 a l None => wf_netb 128 a l && fixed_groups_nonzero a l
+  | _ => false
+  end.
+Definition proved6 (n : net) : bool :=
+  match n with
+  | Net6 a l None => wf_netb 128 a l && ((l =? 0) || (l =? 128))
   | _ => false
   end.
 
@@ -67,7 +73,7 @@ Definition judge_expand (c : str * expect * outcome (net * list str) * list (N *
   let dom :=
     match r with
     | Ok (Net4 _ _, _) => true
-    | Ok (n, _) => stable6 n
+    | Ok (n, _) => proved6 n
     | SigmaErr _ => true
     | Crash _ => false
     end in
